@@ -9,6 +9,7 @@ import (
 	"github.com/ozontech/seq-db/consts"
 	"github.com/ozontech/seq-db/network/circuitbreaker"
 	"github.com/ozontech/seq-db/pkg/storeapi"
+	"github.com/ozontech/seq-db/util"
 	rt "github.com/ozontech/seq-db/verifrt"
 )
 
@@ -103,6 +104,7 @@ func VerifReplicaSets() {
 	hs, hr := rt.Param("HOT_SHARDS"), rt.Param("HOT_REPLICAS")
 	cs, cr := rt.Param("COLD_SHARDS"), rt.Param("COLD_REPLICAS")
 	vW = &vWorld{docs: rt.NondetBytes(1), metas: rt.NondetBytes(1), count: int64(rt.NondetU8())}
+	util.VerifShuffle = vShuffle
 	circuitbreaker.VerifCircuitExecute = func(ctx context.Context, run func(context.Context) error) error {
 		vW.execs++
 		if rt.NondetBool() { // open, throttled or rejected: the callback is not run
